@@ -81,8 +81,11 @@ let () =
             let o0 = h_produce ngc p t k v in
             let steps = h_run ngc ops o0 in
             let buf = Buffer.create 128 in
-            Buffer.add_string buf (Printf.sprintf "T=%s A=%d R=%s" (string_of_tname (h_type_of o0))
-              (int_of_nat o0.o_alloc) (match o0.o_reg with RNone -> "0" | _ -> "1"));
+            (* D: the type the container / view declares for its items (iter_type, key_type, val_type) is the
+               header type; in the model both are spec_type by c19_true_type_and_class *)
+            Buffer.add_string buf (Printf.sprintf "T=%s A=%d R=%s D=%s" (string_of_tname (h_type_of o0))
+              (int_of_nat o0.o_alloc) (match o0.o_reg with RNone -> "0" | _ -> "1")
+              (if h_type_of o0 = h_spec_type p t k v then "1" else "0"));
             let prev = ref o0 in
             List.iter2 (fun op ((o', out), evs) ->
               let o = !prev in prev := o';
